@@ -232,3 +232,44 @@ def int_of_signed(c, sg, d):
     if not pre:
         return True
     return int(c) == (-int(d) if sg == "-" else int(d))
+
+
+def py_isalpha(c):
+    return c.isalpha()
+
+
+def py_isdigit(c):
+    return c.isdigit()
+
+
+# Namespaces in XML 1.0: NCName ::= Name - (Char* ':' Char*), Name ::= NameStartChar (NameChar)*.
+# Letters / digits outside ASCII are taken as Python's str.isalpha / str.isdigit report them (stated
+# approximation of the XML 1.0 character classes).
+def ncname_start_char(c):
+    return py_isalpha(c) or c == "_"
+
+
+def ncname_char(c):
+    return py_isalpha(c) or py_isdigit(c) or c == "." or c == "-" or c == "_" or c == "·" or c == "·"
+
+
+def is_ncname_spec(name):
+    return (
+        name is not None and len(name) > 0 and ncname_start_char(name[0])
+        and forall("int", lambda j: implies(1 <= j and j < len(name), ncname_char(name[j])))
+    )
+
+
+# ---------------------------------------------------------------------------------------------
+# ghost-level builtins (only meaningful symbolically; replay scripts never evaluate them)
+# ---------------------------------------------------------------------------------------------
+def uf(name, sort, *args):
+    raise NotImplementedError("uf() is a symbolic-only builtin")
+
+
+def unmodified(obj):
+    raise NotImplementedError("unmodified() is a symbolic-only builtin")
+
+
+def called(name):
+    raise NotImplementedError("called() is a symbolic-only builtin")
